@@ -62,11 +62,17 @@ def parseSets (s : String) : Option (List GetRes) :=
   | [n, "mod3/0"] => n.toNat?.map fun n => (List.range n).map fun i => GetRes.ok [i % 3] 0
   | _ => (s.splitOn ";").mapM parseSet
 
+/-- `addr:o|c|s` with an optional suffix `C`/`D` (the error wraps `context.Canceled` /
+`context.DeadlineExceeded` although the batch's own context is alive). The suffix does not matter for
+the tracker: the callback returned an error, so it is a failure of the family the classifier assigns. -/
 def parseOutcome (s : String) : Option (Nat × Outcome) :=
   match s.splitOn ":" with
   | [a, o] => do
     let a ← a.toNat?
-    let o ← (if o == "o" then some Outcome.ok else if o == "c" then some .client else if o == "s" then some .server else none)
+    let fam := (o.take 1).toString
+    let suf := (o.drop 1).toString
+    if !(suf == "" || ((suf == "C" || suf == "D") && fam != "o")) then none
+    let o ← (if fam == "o" then some Outcome.ok else if fam == "c" then some .client else if fam == "s" then some .server else none)
     pure (a, o)
   | _ => none
 
@@ -298,7 +304,7 @@ def handleBatch (f : List String) : String × String × String :=
       let batches := if plan.contains '+' then "sim" else "seq"
       let kind := if (_ringInfo.startsWith "real") then "real" else "fake"
       let nk := if gets.length > 4 then "big" else toString gets.length
-      let tags := s!"mode={mode} ring={kind} keys={nk} calls={ncalls} early={early} cancel={plan.contains 'x' || ca.isSome} plan={batches} ret={retClass tr}"
+      let tags := s!"mode={mode} ring={kind} keys={nk} calls={ncalls} early={early} cancel={plan.contains 'x' || ca.isSome} plan={batches} ret={retClass tr} wrap={outcomes.contains 'C' || outcomes.contains 'D'}"
       (diff, jd, tags)
     | _, _, _ => ("bad-input", "-", "-")
   | _ => ("bad-fields", "-", "-")
